@@ -104,6 +104,10 @@ var c20directed = []string{
 	`{{ (a + b).C }}{{ a.b.c }}{{ .A.B }}{{ a["x"].y }}`, `{{ f: 1, 2 | g: 3 | .H }}`,
 	`{{ nil }}{{ true }}{{ "s" }}{{ 1.5 }}{{ 'c' }}` + "{{ `r` }}",
 	`{{ x = 1; x }}{{ y := 2; y | f }}`,
+	// textually identical definitions are still two subtrees
+	`{{if x}}{{block b()}}same {{ a + 1 }}{{end}}{{else}}{{block b()}}same {{ a + 1 }}{{end}}{{end}}`,
+	`{{block c(p=1)}}{{p}}{{end}}{{range xs}}{{block c(p=1)}}{{p}}{{end}}{{end}}{{ a + 1 }}{{ a + 1 }}{{yield c(p=2)}}{{yield c(p=2)}}`,
+	`{{include "x" user}}{{include "y" first + second}}{{include "z" .}}{{include "w" a.b[1]}}`,
 }
 
 // deep trees: a long left-associative chain and deeply nested control structures (every node still exactly once)
